@@ -77,9 +77,10 @@ class Model:
         logger.debug("step, model time: %4d %s", step, self.timer.time)
 
         self.release.update()
+        # Remove dead particles before the forcing caches per-particle data
+        self.state.compactify()
         self.force.update()
 
-        # self.state.compactify()
         if step >= 0:
             self.output.update()
 
